@@ -14,6 +14,7 @@ import (
 	sdkmath "cosmossdk.io/math"
 	sdk "github.com/cosmos/cosmos-sdk/types"
 
+	cckeeper "github.com/functionx/fx-core/v8/x/crosschain/keeper"
 	cctypes "github.com/functionx/fx-core/v8/x/crosschain/types"
 
 	"fxmc/explore"
@@ -37,6 +38,9 @@ type Spec struct {
 	// Rebond: narrowed alphabet around one oracle's full life cycle (vote, governance removal, 22 days, unbond,
 	// re-approval, re-bond, vote again) so that histories of that length come within the depth bound
 	Rebond bool
+	// Restart: offer "the chain is restarted from its exported genesis" - the module's state is exported, its store
+	// emptied and the export imported again (real ExportGenesis / InitGenesis of the crosschain keeper)
+	Restart bool
 
 	w      *world.World
 	os     []scen.Oracle
@@ -45,7 +49,7 @@ type Spec struct {
 }
 
 func (s *Spec) Name() string {
-	return fmt.Sprintf("vote/%s/%s/stakes=%v/extra=%v/var=%s/wrong=%v/exec=%v/mem=%v/blk=%v/max=%d/rebond=%v", s.Prop, s.Chain, s.Stakes, s.Extra, strings.Join(s.Variants, ""), s.WrongN, s.Execute, s.Members, s.Blocks, s.MaxNonce, s.Rebond)
+	return fmt.Sprintf("vote/%s/%s/stakes=%v/extra=%v/var=%s/wrong=%v/exec=%v/mem=%v/blk=%v/max=%d/rebond=%v/restart=%v", s.Prop, s.Chain, s.Stakes, s.Extra, strings.Join(s.Variants, ""), s.WrongN, s.Execute, s.Members, s.Blocks, s.MaxNonce, s.Rebond, s.Restart)
 }
 
 // Model holds the monitor's history variables.
@@ -418,6 +422,38 @@ func (s *Spec) Ops(st *explore.State) []explore.Op {
 				}))
 			}
 		}
+	}
+	if s.Restart {
+		ops = append(ops, explore.Op{Name: "RestartFromExportedGenesis", Run: func(c *explore.State) {
+			m := c.Model.(*Model)
+			defer func() {
+				if r := recover(); r != nil {
+					c.Outcome = "panic"
+					c.Violate("genesis-round-trip", s.sig("export-import-panics"), fmt.Sprint(r))
+				}
+			}()
+			gs := cckeeper.ExportGenesis(c.Ctx, k)
+			store := scen.Store(s.w, c.Ctx, s.Chain)
+			var keys [][]byte
+			it := store.Iterator(nil, nil)
+			for ; it.Valid(); it.Next() {
+				keys = append(keys, append([]byte(nil), it.Key()...))
+			}
+			it.Close()
+			for _, key := range keys {
+				store.Delete(key)
+			}
+			cckeeper.InitGenesis(c.Ctx, k, gs)
+			c.Accepted = true
+			c.Outcome = "ok"
+			// the export does not carry claims parked for execution: what was observed and not yet executed is gone
+			// (the property says nothing about it; the monitor follows the store)
+			for n := range m.Obs {
+				if _, pending := k.GetPendingExecuteClaim(c.Ctx, n); !pending && m.Exec[n] == 0 {
+					m.Exec[n] = -1
+				}
+			}
+		}})
 	}
 	if s.Blocks {
 		ops = append(ops, explore.Op{Name: "Block", Run: func(c *explore.State) {
